@@ -9,7 +9,7 @@
    [enforced] (Json/CanonC01.v) of EnforcedCanonicalJSON; both are compared byte for byte with the
    library on every run. *)
 From Verif Require Import Lib.Bytes Json.Ast Json.Parse Json.Print Json.Render Json.NumFacts
-  Json.ParseComplete Json.CanonFacts Json.CanonC01 Json.CanonSpecC01 Json.C01Proofs Json.CanonFormProofs Gen.GenVersions.
+  Json.ParseComplete Json.CanonFacts Json.CanonC01 Json.CanonSpecC01 Json.C01Proofs Json.CanonFormProofs Json.ParseSound Gen.GenVersions.
 Open Scope N_scope.
 
 (* every presentation of a value is accepted by the reference parser and read as that value *)
@@ -38,6 +38,27 @@ Proof. exact C01Proofs.canonical_separates. Qed.
 Theorem canonical_idempotent : forall v t c,
   RendersText v t -> canonical t = Some c -> canonical c = Some c.
 Proof. exact C01Proofs.canonical_idempotent. Qed.
+
+(* ---- validity.  [LRendersText] (Json/ParseSound.v) is the same grammar plus lone surrogate
+   escapes (grammatical JSON, ill-formed Unicode, read as U+FFFD): the largest set a validator that
+   does not look at Unicode well-formedness can accept.  The parser accepts nothing else ... *)
+Theorem parse_accepts_only_json : forall t v, parse_json t = Some v -> LRendersText v t.
+Proof. exact parse_sound. Qed.
+
+(* ... so a text that is not JSON is refused *)
+Theorem canonical_rejects_invalid : forall t, (forall v, ~ LRendersText v t) -> canonical t = None.
+Proof. exact ParseSound.canonical_rejects_invalid. Qed.
+
+Theorem strict_grammar_within_loose : forall v t, RendersText v t -> LRendersText v t.
+Proof. exact renders_text_loose. Qed.
+
+(* for every accepted input whatsoever (duplicate keys, lone surrogates included): the output is a
+   JSON text of the strict grammar, and canonicalising it again changes nothing *)
+Theorem canonical_output_valid : forall t c, canonical t = Some c -> exists v, RendersText v c.
+Proof. exact ParseSound.canonical_output_valid. Qed.
+
+Theorem canonical_idempotent_all : forall t c, canonical t = Some c -> canonical c = Some c.
+Proof. exact ParseSound.canonical_idempotent_all. Qed.
 
 (* the output is in the one canonical form: nothing but structure outside strings (no whitespace),
    only the shortest escapes inside strings, object keys strictly increasing in byte (= code point)
@@ -110,6 +131,20 @@ Example ex_unique_instance :
   canonical (bs "{""a"":1,""b"":-0}") = canonical (bs " { ""b"" : 0 , ""a"" : 1 } ").
 Proof. vm_compute. reflexivity. Qed.
 
+(* the premise of canonical_rejects_invalid is satisfiable: the empty text is no value's text *)
+Example ex_not_json : forall v, ~ LRendersText v [].
+Proof.
+  intros v H. inversion H as [v0 t0 w1 w2 _ _ Hr E]. subst.
+  destruct w1; [|discriminate]. destruct t0; [|discriminate].
+  inversion Hr as [| | | l Hwf | | | | |]; subst.
+  destruct Hwf as (sg & ip & fp & ep & E1 & _ & Hip & _).
+  destruct sg; [|discriminate]. destruct ip; [|discriminate].
+  destruct Hip as [Hip | (d & ds & Hip & _)]; discriminate.
+Qed.
+
+Example ex_rejects : canonical (bs "[1,]") = None /\ canonical (bs "{""a"":01}") = None /\ canonical [] = None.
+Proof. vm_compute. auto. Qed.
+
 Example ex_unsafe : has_unsafe_number (JArr [JNum (bs "1"); JNum (bs "9007199254740992")]) = true
                     /\ has_unsafe_number (JArr [JNum (bs "0.0")]) = true
                     /\ has_unsafe_number (JArr [JNum (bs "-9007199254740991")]) = false.
@@ -125,6 +160,11 @@ Print Assumptions canonical_preserves_value.
 Print Assumptions canonical_unique.
 Print Assumptions canonical_separates.
 Print Assumptions canonical_idempotent.
+Print Assumptions parse_accepts_only_json.
+Print Assumptions canonical_rejects_invalid.
+Print Assumptions strict_grammar_within_loose.
+Print Assumptions canonical_output_valid.
+Print Assumptions canonical_idempotent_all.
 Print Assumptions canonical_is_canonical_form.
 Print Assumptions canon_print_injective.
 Print Assumptions canon_print_respects.
